@@ -74,7 +74,8 @@ PIECES = [' select ', ' SELECT ', ' where ', ' WHERE 1', ' order by ', ' ORDER B
           ' except ', ' update ', ' set ', ' top 1 ', ' distinct ', ' distinct count ', ' from a ', ' as x', ' AS y,', ' with (header)', ' WITH (noheader)', ' desc', ' ASC', ' on ',
           ' and ', '*', 'a.*', 'b.*', ', *', '=', '==', ' = ', 'a1 = 2', '#', ' # c', ',', ';', ';;', '(', ')', '[', ']', '{', '}', '"', "'", '\\', 'a1', 'a[1]', 'b2', 'NR', 'NF', 'aNR',
           'like(', 'UNNEST(', 'COUNT(*)', 'é', ' ', 'x', 'strict left join', '%', '_', '\\n', '"""', "'''", 'a.zz', 'b.k',
-          '$', '$$', '$&', '$1', "$'", '$`', '${x}', '\\1', '\\g<0>', '{}', '{0}', '%s', '%(a)s', '&&', '||', '/*', '*/', '//', '`', '<!--']
+          '$', '$$', '$&', '$1', "$'", '$`', '${x}', '\\1', '\\g<0>', '{}', '{0}', '%s', '%(a)s', '&&', '||', '/*', '*/', '//', '`', '<!--',
+          '\t', 'a\tb', '  ', ' \t ', '\x0b', '\x0c', '\xa0', '\u2003', ' a ']
 KEYWORDISH = re.compile(r'select|where|order by|group by|limit|join|except|update| set |top|distinct|from| as |with|desc|asc| on | and |[*=#,;()\[\]"\'\\]', re.I)
 ATTR_TOKEN = re.compile(r'(?:^|[^_a-zA-Z0-9])[ab]\.[_a-zA-Z]')
 
